@@ -31,7 +31,21 @@ var vhC11Opts = []struct {
 	{"{% include NAME with {'a': null, 'w': wv} %}", true, false, false},
 	{"{% include NAME with {'w': wv, 'a': nosuchvar, 'b': a.nosuchattr} %}", true, false, false},
 	{"{% include NAME with {'a': null, 'w': wv} only %}", true, true, false},
+	// sandboxed includes (the engine has a policy that allows everything the included template uses)
+	{"{% include NAME sandboxed %}", false, false, false},
+	{"{% include NAME with {'w': wv} sandboxed %}", true, false, false},
+	{"{% include NAME with {'w': wv} only sandboxed %}", true, true, false},
+	{"{% include NAME ignore missing sandboxed %}", false, false, true},
 }
+
+// a policy that allows everything
+type vhAllowAll struct{}
+
+func (vhAllowAll) IsFunctionAllowed(string) bool { return true }
+func (vhAllowAll) IsFilterAllowed(string) bool   { return true }
+func (vhAllowAll) IsTagAllowed(string) bool      { return true }
+
+var _ SecurityPolicy = vhAllowAll{}
 
 var vhC11Sites = []string{
 	"%I",
@@ -79,6 +93,9 @@ func VH_C11_Include() {
 	}
 	main := vhC11Probe + vhReplace(vhC11Sites[site], "%I", inc) + vhC11Probe
 	e := New()
+	if o >= 14 {
+		e.EnableSandbox(vhAllowAll{})
+	}
 	e.RegisterString("inc", vhC11Inc)
 	if err := e.RegisterString("main", main); err != nil {
 		symAssert(false, "template-parses")
@@ -153,15 +170,29 @@ func VH_C11_Depth() {
 	if only2 {
 		l2opt = " only"
 	}
+	// either level may be a sandboxed include (policy allows everything): scopes are the same
+	l1opt := ""
+	if symBool() {
+		e.EnableSandbox(vhAllowAll{})
+		if symBool() {
+			l1opt = " sandboxed"
+			symTag("l1-sandboxed")
+		}
+		if symBool() {
+			l2opt += " sandboxed"
+			symTag("l2-sandboxed")
+		}
+	}
 	e.RegisterString("l1", "1(a={{ a }},x1={{ x1 }},x2={{ x2 }}){% set a = 'a1' %}{% set z1 = 1 %}{% include 'l2' with {'x2': 'X2'}"+l2opt+" %}1(a={{ a }},x2={{ x2 }},z2={{ z2 }})")
-	e.RegisterString("l2", "2(a={{ a }},x1={{ x1 }},x2={{ x2 }},z1={{ z1 }}){% set a = 'a2' %}{% set z2 = 2 %}")
-	e.RegisterString("main", "0(a={{ a }}){% include 'l1' with {'x1': 'X1'} %}0(a={{ a }},x1={{ x1 }},x2={{ x2 }},z1={{ z1 }},z2={{ z2 }})")
-	out, err := e.Render("main", map[string]interface{}{"a": av})
+	e.RegisterString("l2", "2(a={{ a }},x1={{ x1 }},x2={{ x2 }},z1={{ z1 }},g={{ g }}){% set a = 'a2' %}{% set z2 = 2 %}{% set g = 'g2' %}")
+	e.RegisterString("main", "0(a={{ a }}){% include 'l1' with {'x1': 'X1'}"+l1opt+" %}0(a={{ a }},x1={{ x1 }},x2={{ x2 }},z1={{ z1 }},z2={{ z2 }})")
+	out, err := e.Render("main", map[string]interface{}{"a": av, "g": "G"})
 	symCover("rendered")
 	symAssert(err == nil, "renders")
-	l2 := "2(a=a1,x1=X1,x2=X2,z1=1)"
+	// g is set only at the top: every level below sees it through its ancestors (unless `only`)
+	l2 := "2(a=a1,x1=X1,x2=X2,z1=1,g=G)"
 	if only2 {
-		l2 = "2(a=,x1=,x2=X2,z1=)"
+		l2 = "2(a=,x1=,x2=X2,z1=,g=)"
 	}
 	want := "0(a=" + av + ")1(a=" + av + ",x1=X1,x2=)" + l2 + "1(a=a1,x2=,z2=)0(a=" + av + ",x1=,x2=,z1=,z2=)"
 	symAssert(out == want, "nested-include-scopes")
